@@ -44,6 +44,16 @@ pub struct Ctx {
     /// the three reserved bits of the TCP header (between data offset and NS): not flags
     #[serde(default)]
     pub reserved: u8,
+    /// urgent pointer field (meaningful to a receiver only with URG; the SYN policy of the statement
+    /// is about flags alone)
+    #[serde(default)]
+    pub urg: u16,
+    /// window field of the SYN
+    #[serde(default)]
+    pub window: Option<u16>,
+    /// number of other connections validated (handshake + data) before the SYNs are sent
+    #[serde(default)]
+    pub crowd: u32,
 }
 
 pub fn ctx_strategy() -> impl Strategy<Value = Ctx> {
@@ -56,9 +66,9 @@ pub fn ctx_strategy() -> impl Strategy<Value = Ctx> {
         prop_oneof![3 => Just(0u8), 1 => 1u8..=10],
         prop_oneof![2 => Just(Hist::None), 1 => (1u8..4).prop_map(Hist::OtherFlows), 1 => any::<u32>().prop_map(Hist::EarlierSyn), 1 => Just(Hist::Validated)],
         any::<u8>(),
-        (any::<[u64; 2]>(), prop::bool::weighted(0.06), prop_oneof![3 => Just(0u8), 1 => 1u8..8]),
+        (any::<[u64; 2]>(), prop::bool::weighted(0.06), prop_oneof![3 => Just(0u8), 1 => 1u8..8], prop_oneof![4 => Just(0u16), 2 => prop::sample::select(vec![1u16, 2, 63, 64, 65, 0x7fff, 0xffff]), 1 => any::<u16>()], prop::option::weighted(0.3, prop_oneof![prop::sample::select(vec![0u16, 1, 255, 256, 512, 1024, 65535]), any::<u16>()]), prop_oneof![400 => Just(0u32), 1 => prop::sample::select(vec![1100u32, 4200, 66000])]),
     )
-        .prop_map(|(mut scn, mut sport, dport, seq, payload, opt_words, hist, salt, (key2, self_addressed, reserved))| {
+        .prop_map(|(mut scn, mut sport, dport, seq, payload, opt_words, hist, salt, (key2, self_addressed, reserved, urg, window, crowd))| {
             if self_addressed {
                 scn.net.cip = scn.net.sip;
                 sport = dport;
@@ -67,7 +77,7 @@ pub fn ctx_strategy() -> impl Strategy<Value = Ctx> {
                     d.retain(|a| *a != c);
                 }
             }
-            Ctx { scn, sport, dport, seq, payload, opt_words, hist, salt, key2, self_addressed, reserved }
+            Ctx { scn, sport, dport, seq, payload, opt_words, hist, salt, key2, self_addressed, reserved, urg, window, crowd }
         })
 }
 
@@ -77,6 +87,10 @@ pub fn syn_accepted(flags: u16) -> bool {
 
 fn syn_frame(c: &Ctx, net: &Net, sport: u16, dport: u16, flags: u16, seq: u32) -> Vec<u8> {
     let mut h = TcpH::new(sport, dport, seq, 0, flags | ((c.reserved as u16 & 7) << 9));
+    h.urg = c.urg;
+    if let Some(w) = c.window {
+        h.window = w;
+    }
     // options: MSS + NOPs, consistent data offset
     if c.opt_words > 0 {
         let mut o = vec![2u8, 4, 0x05, 0xb4];
@@ -124,6 +138,23 @@ pub fn check(c: &Ctx, st: &mut Stats) -> Check {
             st.class("history:validated-same-flow");
             let _ = deliver(&sut, &flow, 77, b"GET / HTTP/1.1\r\n", &[16]);
         }
+    }
+    if c.crowd > 0 {
+        // "whatever happened before": many other connections reached the data stage
+        for i in 0..c.crowd {
+            let f = Flow { net: net.clone(), sport: (i as u16) ^ 0x5555, dport: 9000u16.wrapping_add((i >> 16) as u16) };
+            if (f.sport, f.dport) == (c.sport, c.dport) {
+                continue;
+            }
+            if let Ok(k) = learn_cookie(&sut, &f, i) {
+                let _ = sut.frame(&f.data(i.wrapping_add(1), k.wrapping_add(1), b"x"));
+            }
+        }
+        st.frames(2 * c.crowd as u64);
+        st.class("history:crowd-of-validated-connections");
+    }
+    if c.urg != 0 {
+        st.class("urgent-pointer-non-zero");
     }
     st.class(if c.payload.is_empty() { "payload:none" } else { "payload:present" });
     st.class(if c.opt_words == 0 { "doff:5" } else { "doff:>5" });
@@ -246,7 +277,7 @@ impl Prop for C06 {
         "C06"
     }
     fn rule(&self) -> &'static str {
-        "cases = generated contexts (in-scope scenario with random key, random 4-tuple incl. ports 0/65535, both IP versions, seq in {0,1,2^31-1,2^31,2^32-2,2^32-1,random}, payload none / 1..63 bytes, data offset 5 or 6..15 with options, history in {none, other flows' handshakes and data, earlier SYN on the same flow, same flow already validated}); in every context ALL 512 values of the 9 TCP flag bits are sent (exhaustive over flags per context). Oracle: flag rule of the statement (exactly SYN|ACK, ack = seq+1, no payload iff SYN and remaining flags within {PSH,URG,CWR,ECE} without CWR&ECE; otherwise no SYN|ACK); cookie relation purely metamorphic: identical across flag sets, client seq, client MAC, payload, history; different when exactly one of source IP, destination IP, source port, destination port, key (both halves, first half only, second half only) changes (three independent retries before reporting, 2^-96); the unchanged SYN is re-sent immediately before every varied SYN and once at the end and must give the same cookie each time. Tuples with source endpoint = destination endpoint are constructed in 6% of the contexts. Non-trivial = every (context, flag value) frame; distinct by frame hash. evaluations counts contexts; frames counts segments."
+        "cases = generated contexts (in-scope scenario with random key, random 4-tuple incl. ports 0/65535, both IP versions, seq in {0,1,2^31-1,2^31,2^32-2,2^32-1,random}, payload none / 1..63 bytes, data offset 5 or 6..15 with options, history in {none, other flows' handshakes and data, earlier SYN on the same flow, same flow already validated, and — rarely — a crowd of 1100 / 4200 / 66000 other connections that reached the data stage}; urgent pointer 0 / 1 / around the payload length / 0xffff / random, window field varied, reserved header bits); in every context ALL 512 values of the 9 TCP flag bits are sent (exhaustive over flags per context). Oracle: flag rule of the statement (exactly SYN|ACK, ack = seq+1, no payload iff SYN and remaining flags within {PSH,URG,CWR,ECE} without CWR&ECE; otherwise no SYN|ACK); cookie relation purely metamorphic: identical across flag sets, client seq, client MAC, payload, history; different when exactly one of source IP, destination IP, source port, destination port, key (both halves, first half only, second half only) changes (three independent retries before reporting, 2^-96); the unchanged SYN is re-sent immediately before every varied SYN and once at the end and must give the same cookie each time. Tuples with source endpoint = destination endpoint are constructed in 6% of the contexts. Non-trivial = every (context, flag value) frame; distinct by frame hash. evaluations counts contexts; frames counts segments."
     }
     fn run(&self, ctx: &mut RunCtx) {
         let n = ctx.share(ctx.tier.n(16_000, 300_000));
